@@ -12,7 +12,7 @@ package main
 //                                   the recipe of the repo's own e2e test = graceful stop + start
 //   q <start> <end> <hex promql>    ConvertPromQLToMetricsQuery + ExecuteMetricsQuery; prints one JSON line
 // stdout: one JSON line per q: {"results":{"<hex series id>":{"<ts>":"<16 hex digits of the float64>"}},"errs":[…],"err":"…"}
-//         and one line {"ingesterr":"…"} per rejected dp, {"roterr":"…"} per failed rotation.
+//         and one line {"ingesterr":"…","dp":<index of the dp command>} per rejected dp, {"roterr":"…"} per failed rotation.
 // Data still in the open (unrotated) block is found by the same query entry point: query.ApplyMetricsQuery
 // merges metrics.GetUnrotatedMetricsSegmentRequests (in-memory tags tree + SearchUnrotatedMetricsBlock) with
 // the rotated segments' requests; nothing special is needed here.
@@ -75,6 +75,7 @@ func mWorkerMain() {
 		out.Flush()
 	}
 	qid := uint64(1000)
+	ndp := 0 // index of the dp command (0-based), reported with a rejection
 	for in.Scan() {
 		f := strings.Fields(in.Text())
 		if len(f) == 0 {
@@ -89,8 +90,13 @@ func mWorkerMain() {
 				os.Exit(4)
 			}
 			if err := writer.AddTimeSeriesEntryToInMemBuf(raw, sutils.SIGNAL_METRICS_OTSDB, 0); err != nil {
-				emit(map[string]interface{}{"ingesterr": err.Error()})
+				msg := err.Error()
+				if len(msg) > 300 {
+					msg = msg[:300]
+				}
+				emit(map[string]interface{}{"ingesterr": msg, "dp": ndp})
 			}
+			ndp++
 		case "blockrotate":
 			if _, err := metrics.VerifRotateBlocks(); err != nil {
 				emit(map[string]interface{}{"roterr": err.Error()})
